@@ -16,7 +16,7 @@ import (
 )
 
 var c16Segs = []string{"a", "b", "c", "db", "host", "log", "logging", "port", "ports", "x-y", "k_1", "0", "12", "DB", "Host", "Log"}
-var c16Vals = []string{"1", "x", "hello", "true", "a b", "v-1", "0.5", "é世", "http//h", "", "80%", "%d %s - done", "100%%", "a%20b", "${a}", "${HOME}", "x${nope}y", "$a {b}"}
+var c16Vals = []string{"1", "x", "hello", "true", "a b", "v-1", "0.5", "é世", "http//h", "", "80%", "%d %s - done", "100%%", "a%20b", "${a}", "${HOME}", "x${nope}y", "$a {b}", "😀 ok", "clef 𝄞", "𐌰𐌱"}
 
 var c16LongVals = []string{
 	// long values (blanks and tabs around byte offsets 80 and 160), and non-ASCII text long enough to cross any read-ahead boundary at either parity
